@@ -193,3 +193,59 @@ func verifC10Perm(n int) []int {
 	}
 	return out
 }
+
+// Two (thorough: three) fragmented messages sent back to back by one link service and delivered to a fresh peer in
+// every interleaving of their frames: each packet is delivered exactly once, byte-identical, with its own token.
+func VerifC10_InterleavedMessages() {
+	nmsg := verifParam("messages", 2)
+	mtu := []int{300, 500, 1500}[verifChoice("mtu", 3)]
+	opt := MakeNDNLPLinkServiceOptions()
+	opt.IsFragmentationEnabled = true
+	l, tr := verifC10Link(mtu, opt)
+	name, _ := enc.NameFromStr("/a")
+	var wires [][]byte
+	var toks [][]byte
+	var owner []int // message index of every frame
+	for m := 0; m < nmsg; m++ {
+		// sizes that need two or three frames at this MTU
+		n := mtu + 100 + 150*verifChoice("extra", 2) + m
+		if n < 300 {
+			n = 300
+		}
+		wire := verifC10Packet(n)
+		wires = append(wires, wire)
+		pkt := &defn.Pkt{Name: name, Raw: wire, L3: &spec.Packet{Data: &spec.Data{NameV: name}}}
+		out := dispatch.OutPkt{Pkt: pkt}
+		tok := verifBytesN("token", 6)
+		verifAssume(tok[0] == 0 && tok[1] == 0)
+		out.PitToken, pkt.PitToken = tok, tok
+		toks = append(toks, tok)
+		before := len(tr.frames)
+		verifNoPanic("C10/send/no-panic", func() { sendPacket(l, out) })
+		for i := before; i < len(tr.frames); i++ {
+			owner = append(owner, m)
+		}
+		verifAssert(len(tr.frames)-before >= 2, "C10/interleave/fragmented")
+	}
+	verifAssume(len(tr.frames) <= verifParam("maxframes", 5))
+	th := verifC10Threads()
+	l2, _ := verifC10Link(mtu, MakeNDNLPLinkServiceOptions())
+	order := verifC10Perm(len(tr.frames))
+	verifNoPanic("C10/receive/no-panic", func() {
+		for _, i := range order {
+			l2.handleIncomingFrame(tr.frames[i])
+		}
+	})
+	verifAssert(len(th.interests) == 0 && len(th.datas) == nmsg, "C10/interleave/every-message-delivered-exactly-once")
+	for m := 0; m < nmsg; m++ {
+		found := 0
+		for _, got := range th.datas {
+			if len(got.Raw) == len(wires[m]) {
+				found++
+				verifAssertBytesEq(got.Raw, wires[m], "C10/interleave/bytes-equal")
+				verifAssertBytesEq(got.PitToken, toks[m], "C10/interleave/pit-token")
+			}
+		}
+		verifAssert(found == 1, "C10/interleave/every-message-delivered-exactly-once")
+	}
+}
